@@ -62,6 +62,10 @@ func (s *BarGraph) SetKeys(keyItems ...string) {
 
 // Writes bar graph values, assuming vals map to the keyItems for each index
 func (s *BarGraph) WriteBar(idx int, key string, vals ...int64) {
+	// The values are kept for redraws: keep a copy, the caller's slice may be live storage that
+	// changes before the next call (cmd/bargraph.go passes the aggregator's own slices)
+	vals = append([]int64(nil), vals...)
+
 	// Update max key-len
 	if klen := color.StrLen(key); klen > s.maxKeyLength {
 		s.maxKeyLength = klen
